@@ -190,6 +190,10 @@ class Rho:
         self.salt = salt or {}
 
     def const(self, x):
+        if x in (float('inf'), float('-inf')):
+            # exactly representable in float32; a symbol of its own (no program
+            # lets Python do arithmetic on it)
+            return self.h('infinite-constant', x > 0)
         fr = Fraction(x)
         return fr.numerator % self.p * pow(fr.denominator, -1, self.p) % self.p
 
@@ -671,10 +675,13 @@ _OPAQUE_BIN = [n for n in oc.BINARY_FORMS if n not in oc.RING_BINARY]
 
 class _Info:
     __slots__ = ('kind', 'hi', 'lo', 'semc', 'depth', 'nout', 'elems', 'nest',
-                 'einfo')
+                 'einfo', 'pure')
 
     def __init__(self, kind, hi=0, lo=0, semc=False, depth=0, nout=1,
-                 elems=None, nest=False, einfo=None):
+                 elems=None, nest=False, einfo=None, pure=False):
+        # pure: computed from numbers only (a Python number in any library,
+        # not a signal some identity may fold)
+        self.pure = pure
         self.nest = nest      # list of lists
         self.einfo = einfo    # flat list of scalars (c01): _Info per channel
         self.kind = kind      # 'val' | 'multi' | 'none' | 'list' | 'chain' | 'buf'
@@ -732,13 +739,14 @@ class Gen:
 
     def oinfo(self, o):
         if o[0] in ('c', 'raw'):
-            return _Info('val', 0, 0, True, 0)
+            return _Info('val', 0, 0, True, 0, pure=True)
         return self.info[o[1]]
 
     def nsc(self, o):
         """operand is certainly a unit generator object when the function runs."""
-        return o[0] == 'n' and self.info[o[1]].kind == 'val' \
-            and (self.folding_agnostic or not self.info[o[1]].semc)
+        inf = self.info[o[1]] if o[0] == 'n' else None
+        return inf is not None and inf.kind == 'val' and not inf.pure \
+            and (self.folding_agnostic or not inf.semc)
 
     def add(self, nd):
         if self.no_dup and nd['k'] not in ('sink', 'list', 'param', 'idx'):
@@ -783,7 +791,8 @@ class Gen:
                 semc = vals[0][j] == vals[3][j]
                 lo = 2 if vals[0][j] != vals[1][j] else \
                     1 if vals[0][j] != vals[2][j] else 0
-                einfo.append(_Info('val', hi, min(lo, hi), semc, depth))
+                einfo.append(_Info('val', hi, min(lo, hi), semc, depth,
+                                   pure=all(e.pure for e in es)))
             return _Info('list', max(e.hi for e in einfo),
                          max(e.lo for e in einfo), False, depth,
                          elems=len(einfo), einfo=einfo)
@@ -798,7 +807,8 @@ class Gen:
             for j in range(n):
                 es = [x if x.kind == 'val' else x.einfo[j % len(x.einfo)]
                       for x in ops]
-                einfo.append(_Info('val', max(e.hi for e in es), 0, False, depth))
+                einfo.append(_Info('val', max(e.hi for e in es), 0, False, depth,
+                                   pure=all(e.pure for e in es)))
             return _Info('list', max(e.hi for e in einfo), 0, False, depth,
                          elems=n, einfo=einfo)
         if k in ('un', 'bin', 'madd', 'sumn', 'ugen') and any(
@@ -827,17 +837,18 @@ class Gen:
             # really depends on (absorbed factors such as x*0 do not count)
             semc = vals[0] == vals[3]
             lo = 2 if vals[0] != vals[1] else 1 if vals[0] != vals[2] else 0
-            return _Info('val', hi, min(lo, hi), semc, depth)
+            return _Info('val', hi, min(lo, hi), semc, depth,
+                         pure=bool(ops) and all(x.pure for x in ops))
         if k in ('alias', 'wrapfail'):
             a = self.oinfo(nd['a'] if k == 'alias' else nd['fallback'])
-            return _Info(a.kind, a.hi, a.lo, a.semc, a.depth)
+            return _Info(a.kind, a.hi, a.lo, a.semc, a.depth, pure=a.pure)
         if k == 'wrapok':             # helper returns SinOsc.ar(f) * control
             return _Info('val', 2, 2, False, 2)
         if k == 'idx':
             a = self.info[nd['a'][1]]
             if a.einfo is not None:
                 e = a.einfo[nd['i']]
-                return _Info('val', e.hi, e.lo, e.semc, a.depth)
+                return _Info('val', e.hi, e.lo, e.semc, a.depth, pure=e.pure)
             return _Info('val', a.hi, a.lo, False, a.depth)
         if k == 'ugen':
             ent = UGENS[nd['cls']]
@@ -877,6 +888,8 @@ class Gen:
         out = []
         for i, inf in enumerate(self.info):
             if inf.kind != 'val' or inf.depth > md:
+                continue
+            if inf.pure and (nsc or stable is not None):
                 continue
             if self.folding_agnostic:
                 if stable is not None and inf.hi != stable:
@@ -1256,9 +1269,26 @@ class Gen:
                 return self.arg_list()
             return self.pick(pconst=0.5, maxdepth=self.max_depth - 2)
         which = rng.choice(['madd', 'madd', 'madd-scalar-receiver', 'sum3',
-                            'sum4', 'bin', 'bin', 'bin-number-left', 'un'])
+                            'sum4', 'bin', 'bin', 'bin-number-left', 'un',
+                            'madd-number-channels', 'madd-number-channels',
+                            'ring-number-channels'])
         self.features.add('mixed-rate-channels')
-        if which == 'madd':
+        if which in ('madd-number-channels', 'ring-number-channels'):
+            # a channel list that holds plain numbers next to signals (the
+            # library makes such lists itself: [a, b] * [0, 1]); madd and the
+            # ring operators are defined channel by channel, numbers included
+            items2 = list(items)
+            for _ in range(rng.randint(1, 2)):
+                items2.insert(rng.randrange(len(items2) + 1),
+                              ['c', rng.choice([0.5, 2, 0, 1, 0.25, 3, -1, 0.0])])
+            recv = self.add({'k': 'list', 'items': items2})
+            self.features.add('number-channel-in-list')
+            if which == 'madd-number-channels':
+                nd = {'k': 'madd', 'a': recv, 'mul': arg(), 'add': arg()}
+            else:
+                nd = {'k': 'bin', 'op': rng.choice(['+', '-', '*']), 'a': recv,
+                      'b': arg(), 'form': 0}
+        elif which == 'madd':
             nd = {'k': 'madd', 'a': recv, 'mul': arg(), 'add': arg()}
         elif which == 'madd-scalar-receiver':
             x = self.pick_node(maxdepth=self.max_depth - 2)
@@ -1347,6 +1377,36 @@ class Gen:
                 self.add({'k': 'sink', 'cls': 'Out', 'm': 'kr', 'bus': bus,
                           'chans': [ch], 'bare': True})
         return res
+
+    # -- infinite constants ----------------------------------------------------
+    def p_infinite(self):
+        """+-inf is an ordinary float32 constant: x.max(-inf), x.min(inf),
+        Line.kr(0, inf, dur), Clip.ar(x, lo, inf)"""
+        rng = self.rng
+        inf = ['c', rng.choice([float('inf'), float('-inf')])]
+        x = self.pick_node()
+        if x is None:
+            return None
+        self.features.add('infinite-constant')
+        which = rng.choice(['op', 'op', 'op-left', 'line', 'clip', 'madd'])
+        if which == 'op':
+            op = rng.choice(['max', 'min', '*', '+', '-', 'pow', 'mod', '<', '>'])
+            return self.mk_bin(op, x, inf)
+        if which == 'op-left':
+            return self.mk_bin(rng.choice(['*', '+', '-', '/', 'pow']), inf, x,
+                               0)
+        if which == 'madd':
+            return self.add({'k': 'madd', 'a': x, 'mul': inf,
+                             'add': self.pick(pconst=0.5)})
+        t = self.tag()
+        if which == 'line':
+            return self.add({'k': 'ugen', 'cls': 'Line', 'm': 'kr',
+                             'args': [self.pick(maxrate=0, pconst=0.7), inf,
+                                      ['c', t], ['c', 0]], 'tag': t})
+        r = self.info[x[1]].hi
+        m = {0: 'ir', 1: 'kr', 2: 'ar'}[r]
+        return self.add({'k': 'ugen', 'cls': 'Clip', 'm': m,
+                         'args': [x, ['c', t], inf], 'tag': t})
 
     # -- width-first units: ordering side effects --------------------------------
     def p_width_first(self):
@@ -1443,6 +1503,8 @@ class Gen:
         for nm in names:
             rate = rng.choices(['kr', 'ar', 'ir', 'tr'], [6, 2, 2, 1])[0]
             d = rng.choice(SMALL_CONSTS + [0, 1, 0.0, 1.0, -1])
+            if self.profile == 'c02' and rng.random() < 0.04:
+                d = rng.choice([float('inf'), float('-inf')])   # exact in f32
             if arrays and rng.random() < 0.3:
                 d = [rng.choice(SMALL_CONSTS) for _ in range(rng.randint(2, 4))]
             prm = {'name': nm, 'rate': rate, 'default': d, 'lag': 0}
@@ -1459,7 +1521,7 @@ C01_PRODUCTIONS = [
     ('p_add_chain', 4), ('p_muladd', 3), ('p_negs', 3), ('p_self', 3),
     ('p_opaque_un', 2), ('p_neg', 1), ('p_opaque_bin', 2), ('p_madd', 2),
     ('p_sumn', 1.5), ('p_lsum', 2), ('p_sink', 1), ('p_mixed_mc', 2.5),
-    ('p_width_first', 1.2), ('p_array_control', 1.0),
+    ('p_width_first', 1.2), ('p_array_control', 1.0), ('p_infinite', 0.8),
 ]
 
 
